@@ -15,12 +15,12 @@ class C01(Prop):
     pid = "C01"
     prop_file = "Props/C01.v"
     module = "Props.C01"
-    gen_deps = ["Table", "StripFn", "StreamFn"]
+    gen_deps = ["Table", "StripFn", "StreamFn", "Utf8parseFn"]
     harness = ("h-core", "hcore")
     nontrivial_rule = ("cases: every byte string up to length L over the 28-symbol class alphabet (exhaustive; L=3 quick, 4 thorough) through strip_bytes "
                        "(pieces with offsets, and concatenation vs Spec/Strip), its valid-UTF-8 subset through strip_str; grammar streams (escape sequences, "
                        "truncations, controls inside sequences, C1 bytes, malformed UTF-8) up to several KiB. non-trivial = distinct input from which at least one byte is removed")
-    trusted = ["third-party utf8parse automaton: transcribed (Model/Utf8parse.v), tied by every multi-byte case"]
+    trusted = ["third-party utf8parse automaton: TRANSLATED from the registry source of the version Cargo.lock pins (tools/gen_fn_utf8parse.py: unpacked source = the archive of the lock file's checksum = the directory cargo metadata reports for the harness crates) and proved equal to Model/Utf8parse.v (Proofs/Utf8parseGen.v); also tied by every multi-byte case. Trusted: cargo builds the harness from that directory; a Receiver = the list of calls it gets; char::from_u32_unchecked = identity (precondition proved)"]
     assumptions = ["input bytes are < 256 (u8)", "the text API is only given valid UTF-8 (type &str)"]
 
     def streams(self, tier, rng):
